@@ -952,7 +952,7 @@ class RTCSctpTransport(AsyncIOEventEmitter):
 
         # consolidate misordered entries
         self._sack_misordered.add(tsn)
-        for tsn in sorted(self._sack_misordered):
+        for tsn in self._sorted_misordered():
             if tsn == tsn_plus_one(self._last_received_tsn):
                 self._last_received_tsn = tsn
             else:
@@ -965,6 +965,15 @@ class RTCSctpTransport(AsyncIOEventEmitter):
         self._sack_duplicates = list(filter(is_obsolete, self._sack_duplicates))
         self._sack_misordered = set(filter(is_obsolete, self._sack_misordered))
         return False
+
+    def _sorted_misordered(self) -> list[int]:
+        """
+        Return the misordered TSNs in serial number order.
+        """
+        return sorted(
+            self._sack_misordered,
+            key=lambda tsn: (tsn - self._last_received_tsn) % SCTP_TSN_MODULO,
+        )
 
     async def _receive(self, stream_id: int, pp_id: int, data: bytes) -> None:
         """
@@ -1158,7 +1167,7 @@ class RTCSctpTransport(AsyncIOEventEmitter):
         # advance cumulative TSN
         self._last_received_tsn = chunk.cumulative_tsn
         self._sack_misordered = set(filter(is_obsolete, self._sack_misordered))
-        for tsn in sorted(self._sack_misordered):
+        for tsn in self._sorted_misordered():
             if tsn == tsn_plus_one(self._last_received_tsn):
                 self._last_received_tsn = tsn
             else:
@@ -1422,7 +1431,7 @@ class RTCSctpTransport(AsyncIOEventEmitter):
         """
         gaps: list[list[int]] = []
         gap_next = None
-        for tsn in sorted(self._sack_misordered):
+        for tsn in self._sorted_misordered():
             pos = (tsn - self._last_received_tsn) % SCTP_TSN_MODULO
             if tsn == gap_next:
                 gaps[-1][1] = pos
